@@ -219,29 +219,33 @@ def s7_generation_guard(C, rep, rid):
                         e = mm.expand_params(F, X, e, depth=2)
                         ok = False
                         why = show(e)[:120]
+                        # unwrap_or(<gen>, 0) - possibly centralised in a constructor called from several places: every
+                        # generation that can reach the field must be the one of a Pending state write or of the listed entry
+                        cands = []
                         for a in alts(e):
-                            # unwrap_or(<gen>, 0)
                             x = a
                             if x[0] == "call" and x[1] in ("std::option::Option::unwrap_or", "std::option::Option::unwrap_or_default") and x[2]:
                                 x = x[2][0]
+                            cands += list(alts(x))
+                        ok = bool(cands)
+                        for x in cands:
+                            if x[0] == "agg" and x[2] == "None":
+                                continue                        # "no generation known" (the fallback applies)
+                            if x[0] == "field" and x[1] == "0" and x[3] == "Some":
+                                x = x[4]
+                            okx = False
                             if x[0] == "field" and x[1] == "generation":
-                                inner = x[4]
-                                # response of a datastore write of a Pending record, or the listed entry
-                                txt = show(inner)
+                                txt = show(x[4])
                                 if "ClnRpc::datastore" in txt or "ClnRpc::listdatastore" in txt:
-                                    ok = True
-                                    # if it is a write response it must be the state write carrying Pending
+                                    okx = True
                                     if "ClnRpc::datastore" in txt and "ClnRpc::listdatastore" not in txt:
-                                        ok = "PersistPaymentState::Pending" in txt and "state_key" in txt
-                                else:
-                                    ok = False
-                            else:
+                                        okx = "PersistPaymentState::Pending" in txt and "state_key" in txt
+                            if not okx:
                                 ok = False
-                            if not ok:
                                 break
                         rep.ob(rid, ok, F.root_of(b), "AttemptId.state_generation provenance", where=loc(s["sp"]), how=why,
                                detail="" if ok else "state_generation is filled from %s, not from the generation of the Pending record's write/read" % why)
-        rep.anchor(rid, "%s: constructions of AttemptId" % d["self_ty"], srcs, 2)
+        rep.anchor(rid, "%s: constructions of AttemptId" % d["self_ty"], srcs, 1)
 
 
 # ============================================================================ C08
@@ -281,9 +285,11 @@ def _ok_return_blocks(b, X=None):
     out = []
     rt = b.ret_ty
     for bi in sorted(b.reachable):
+        if b.blocks[bi].get("ctx"):
+            continue                       # the Ok(..) of a spliced helper is the helper's result, not the method's
         for s in b.blocks[bi]["s"]:
             if s["k"] == "assign" and not s["lhs"]["p"] and s["rv"]["k"] == "agg" and s["rv"].get("variant") == "Ok" and s["rv"].get("adt") == "std::result::Result" \
-                    and b.local_ty(s["lhs"]["l"]) == rt:
+                    and b.local_ty(s["lhs"]["l"]) == rt and not s.get("inl"):
                 out.append(bi)
     return out
 
@@ -487,7 +493,8 @@ def m_modes_vs_images(C, rep, rid):
         # freshness of the attempt id used with must-create
         for w in seqs["add_payment_attempt"]:
             if w.key_kind == "attempt" and w.mode in ("MUST_CREATE", "DEFAULT(MUST_CREATE)"):
-                fresh = w.key_id is not None and any(x[0] == "call" and x[1] == "std::time::SystemTime::now" for x in walk(w.key_id))
+                kid = strip(mm.inline_pure(F, X, w.key_id, depth=2)) if w.key_id is not None else None     # `unix_now()` helpers are what they return
+                fresh = kid is not None and any(x[0] == "call" and x[1] == "std::time::SystemTime::now" for x in walk(kid))
                 rep.ob(rid, fresh, meth["add_payment_attempt"]["root"], "must-create attempt key is fresh (clock derived)", where=w.call.loc, how=show(w.key_id)[:60] if w.key_id else "?",
                        detail="" if fresh else "attempt key %s is created with must-create but is not fresh: a second attempt for the hash fails forever" % (show(w.key_id)[:60] if w.key_id else "?"))
         # every write's failure is propagated and no success return skips a later write
